@@ -367,6 +367,27 @@ impl GlobalInferenceCtx<'_> {
         let mut really_replaced = true;
 
         if !found_ty.is_weak_replaceable_by(&new_ty) {
+            // a weakly typed number that is computed (not a plain literal) and goes into an error
+            // union is given the type of the side it is stored as: left weak, `x : Err!i64 = comptime { -60 }` would be
+            // evaluated as an i32 and widened without its sign
+            if let Ty::ErrorUnion {
+                error_ty,
+                payload_ty,
+            } = new_ty.absolute_ty()
+                && !matches!(expr_body, Expr::IntLiteral(_) | Expr::FloatLiteral(_))
+                && matches!(found_ty.as_ref(), Ty::IInt(0) | Ty::UInt(0) | Ty::Float(0))
+            {
+                let side = if found_ty.can_fit_into(payload_ty) {
+                    *payload_ty
+                } else {
+                    *error_ty
+                };
+                if found_ty.is_weak_replaceable_by(&side) {
+                    self.replace_weak_tys(expr, side);
+                }
+                return false;
+            }
+
             // an integer literal that goes into an error union keeps its weak type (it is
             // converted when it is stored), but it still has to fit the side it is stored as
             if let (
